@@ -286,14 +286,15 @@ def neg(c):
 
 class Alt:
     """One alternative outcome of a forking operation."""
-    __slots__ = ("cond", "facts", "value", "error", "unsupported")
+    __slots__ = ("cond", "facts", "value", "error", "unsupported", "side")
 
-    def __init__(self, cond=True, value=None, error=None, facts=(), unsupported=None):
+    def __init__(self, cond=True, value=None, error=None, facts=(), unsupported=None, side=()):
         self.cond = cond
         self.facts = list(facts)
         self.value = value
         self.error = error
         self.unsupported = unsupported
+        self.side = list(side)   # [(condition that must be unsatisfiable on this path, message)]
 
 
 class State:
@@ -341,6 +342,8 @@ class Stats:
         self.feas_unknown = 0
         self.solver_s = 0.0
         self.pruned = 0
+        self.cache_hits = 0
+        self.side_queries = 0
 
 
 class Machine:
@@ -356,21 +359,28 @@ class Machine:
         self.path = []
         self.on_outcome = None
         self.trace_hook = None
+        self.model = None
+        # the alternatives produced by Equal and by the builtin models are exhaustive (their
+        # conditions cover every case), which lets the last one be taken without a query when all
+        # the others were refuted
+        self.exhaustive_alts = True
 
     # -- solver helpers --------------------------------------------------------------------
     def feasible(self):
+        """Is the solver's current assertion stack satisfiable?  Returns (bool, model or None)."""
         if self.solver is None:
-            return True
+            return True, None
         self.stats.feas_queries += 1
         t0 = time.time()
         self.solver.set("timeout", self.feas_timeout_ms)
         r = self.solver.check()
         self.stats.solver_s += time.time() - t0
         if r == z3.unsat:
-            return False
+            return False, None
         if r == z3.unknown:
             self.stats.feas_unknown += 1
-        return True
+            return True, None
+        return True, self.solver.model()
 
     # -- entry -----------------------------------------------------------------------------
     def run(self, fn, arg, on_outcome, assumptions=()):
@@ -389,6 +399,7 @@ class Machine:
             for a in assumptions:
                 self.solver.add(a)
                 self.path.append(a)
+        self.model = None
         try:
             self._explore(st)
         finally:
@@ -399,6 +410,20 @@ class Machine:
         self.stats.paths += 1
         if self.stats.paths > self.max_paths:
             raise Unsupported("path budget exceeded")
+        if st.side and self.solver is not None and kind in ("value", "error"):
+            # the model is only exact on this path if none of the side conditions (e.g. 64-bit
+            # overflow of a BV-mode addition) can occur
+            self.stats.side_queries += 1
+            t0 = time.time()
+            self.solver.push()
+            self.solver.add(z3.Or(*[c for c, _ in st.side]))
+            self.solver.set("timeout", self.feas_timeout_ms)
+            r = self.solver.check()
+            self.solver.pop()
+            self.stats.solver_s += time.time() - t0
+            if r != z3.unsat:
+                kind = "unsupported"
+                kw = {"detail": "side condition not excluded: " + "; ".join(sorted(set(m for _, m in st.side)))[:200]}
         self.on_outcome(Outcome(kind, st, list(self.path), **kw))
 
     def _fork(self, st, alts, apply):
@@ -413,7 +438,9 @@ class Machine:
         live = [a for a in alts if a.cond is not False]
         if len(live) > 1:
             self.stats.forks += 1
-        for a in live:
+        cached = self.model          # a model of the current path (or None)
+        any_feasible = False
+        for k, a in enumerate(live):
             symbolic = a.cond is not True or a.facts
             if symbolic and self.solver is not None:
                 self.solver.push()
@@ -427,10 +454,22 @@ class Machine:
                     self.path.append(f)
                     added += 1
                 ok = True
+                mdl = None
                 # facts alone (definitions of fresh variables) never make a path infeasible
                 if a.cond is not True and len(live) > 1:
-                    ok = self.feasible()
+                    if cached is not None and z3.is_true(cached.eval(a.cond, model_completion=True)):
+                        mdl = cached               # the cached model already witnesses this branch
+                        self.stats.cache_hits += 1
+                    elif k == len(live) - 1 and not any_feasible and self.exhaustive_alts:
+                        ok = True                  # the path is feasible and every other branch is not
+                        self.stats.cache_hits += 1
+                    else:
+                        ok, mdl = self.feasible()
+                elif a.cond is True and not a.facts:
+                    mdl = cached
                 if ok:
+                    any_feasible = True
+                    self.model = mdl if not a.facts else None
                     self._take(st, a, apply, clone=(len(live) > 1))
                 else:
                     self.stats.pruned += 1
@@ -439,7 +478,10 @@ class Machine:
             else:
                 if symbolic and self.solver is None:
                     raise Unsupported("symbolic fork without solver")
+                any_feasible = True
+                self.model = cached
                 self._take(st, a, apply, clone=(len(live) > 1))
+        self.model = cached
 
     def _take(self, st, a, apply, clone):
         s2 = st.clone() if clone else st
@@ -449,6 +491,8 @@ class Machine:
         if a.unsupported is not None:
             self._finish("unsupported", s2, detail=a.unsupported)
             return
+        if a.side:
+            s2.side.extend(a.side)
         apply(s2, a)
         self._explore(s2)
 
@@ -652,6 +696,8 @@ class Machine:
                 alts = self.b.call(name, param, self)
                 if len(alts) == 1 and alts[0].cond is True and not alts[0].facts \
                         and alts[0].error is None and alts[0].unsupported is None:
+                    if alts[0].side:
+                        st.side.extend(alts[0].side)
                     stack.append(alts[0].value)
                     fr[1] += 1
                 else:
